@@ -816,7 +816,12 @@ Definition native (fuel : nat) (n : str) (args : list value) (st : state) : res 
     do l <- strict_list st (arg 0%nat);
     match arg 1%nat, arg 2%nat with
     | VNone, VBool rv =>
-        if Nat.ltb 12%nat (length l) then Err EUnsupported else
+        (* beyond 12 elements sort.Slice is pdqsort: which pairs it compares is not modelled, but on a list of ints only
+           (or strings only) no comparison can fail and the sorted result is unique *)
+        if Nat.ltb 12%nat (length l)
+           && negb (forallb (fun v => match v with VInt _ => true | _ => false end) l
+                    || forallb (fun v => match v with VStr _ => true | _ => false end) l)
+        then Err EUnsupported else
         do r <- insertion_sort (fun x y => vcmp fuel st (if rv then Gt else Lt) x y) l;
         Ok (new_list r st)
     | VNone, _ => Err EType
